@@ -468,4 +468,14 @@ def commitSetOfSpend (c : ChanCommits) (spent : SetKey) : Option (CloseSub × Co
   | .rem => some (.remoteUnilateral, ⟨.rem, sets⟩)
   | .pend => if c.pend.isSome then some (.remoteUnilateral, ⟨.pend, sets⟩) else none
 
+/-- lnwallet `extractHtlcResolutions` (called by `NewLocalForceCloseSummary` /
+    `NewUnilateralCloseSummary`) as far as the arbitrator depends on it: one incoming / outgoing
+    HTLC resolution per HTLC of the spent commitment that has an output there, identified by the
+    output index of its outpoint.  `commit` / `anchor`: whether the summary carries a commit
+    resolution / anchor resolutions (inputs of the model). -/
+def closeSummaryResolutions (s : HtlcSet) (commit anchor : Bool) : Resolutions :=
+  { inOuts := (s.incoming.filter (fun h => !h.dust)).map outU32,
+    outOuts := (s.outgoing.filter (fun h => !h.dust)).map outU32,
+    commit := commit, anchor := anchor, breach := false }
+
 end LndModel.C12
